@@ -38,12 +38,8 @@ ASSUMPTIONS = [
     "Perm.count_inversions (a Fenwick tree) is modelled by the inversion-pair count; compared through fam.alt",
 ]
 PARTIAL = [
-    "quickSortable_iff_avoids: quick-sortable <-> Av(321, 2413, (2143,{(2,2)})) - bounded TEST |s|<=9 inside the oracle",
-    "west2_iff_avoids (West): <-> Av(2341, (3241,{(1,4)})) - bounded TEST |s|<=9 inside the oracle",
-    "baxter_iff_vincular / simsun_iff_double_descent / forestLike_iff_barred: the mesh patterns of the source "
-    "characterise the textbook definitions - bounded TEST |s|<=7 (quick) / 8 (thorough) + random |s|<=11",
-    "ytShape_eq_RSK (Greene): shape of _perm_to_yt = (LIS, largest 2-increasing union) - bounded TEST |s|<=6; "
-    "independent Schensted insertion up to |s|<=40",
+    "PROVED since the first build (no longer partial): west2_iff_avoids (West), quickSortable_iff_avoids, baxter_iff_vincular, simsun_iff_double_descent, forestLike_iff_barred - for every permutation; the oracle's bounded cross-checks of the same statements still run as tests",
+    'ytShape_eq_RSK (Greene): shape of _perm_to_yt = (LIS, largest 2-increasing union) - bounded TEST |s|<=6; independent Schensted insertion up to |s|<=40',
     "Ungar's bound (n-1 pop-stack passes) is not attempted; termination is proved with the bound inv(s) <= n^2",
 ]
 TRUSTED = ["Perm.count_inversions modelled at specification level (pair count)",
